@@ -355,6 +355,260 @@ example : dests ⟨[none, some 0, some 0, some 1, some 1]⟩ 1 .children = [3, 4
 
 end Send
 
+/-! ### the `transmitMux` region: one instance per token, every message to that instance -/
+namespace Inst
+
+def carries (tok m : Nat) (t : Th) : Bool := t.tok == tok && t.m == m && t.pc != .fin
+def atCtor (t : Th) : Bool := t.pc == .ctor
+
+structure Inv (s : St) : Prop where
+  nodup : s.created.Nodup
+  instCreated : ∀ tok ∈ s.inst, tok ∈ s.created
+  createdInst : ∀ tok ∈ s.created, tok ∈ s.inst ∨ s.mux = some tok
+  muxCreated : ∀ tok, s.mux = some tok → tok ∈ s.created ∧ tok ∉ s.inst
+  ctorMux : ∀ t ∈ s.thr, t.pc = .ctor → s.mux = some t.tok
+  ctorCount : s.thr.countP atCtor = (if s.mux.isSome then 1 else 0)
+  handedInst : ∀ p ∈ s.handed, p.1 ∈ s.inst
+  cons : ∀ tok m, s.arrived.count (tok, m) = s.handed.count (tok, m) + s.thr.countP (carries tok m)
+
+theorem inv_init : Inv {} := by constructor <;> simp
+
+theorem countP_set' {p : Th → Bool} {l : List Th} {i : Nat} {t t' : Th} (h : l[i]? = some t) :
+    (l.set i t').countP p + (if p t then 1 else 0) = l.countP p + (if p t' then 1 else 0) := by
+  have hi : i < l.length := by
+    rcases Nat.lt_or_ge i l.length with h' | h'
+    · exact h'
+    · simp [List.getElem?_eq_none h'] at h
+  have ht : l[i] = t := by simpa [List.getElem?_eq_getElem hi] using h
+  have := List.boole_getElem_le_countP (p := p) hi
+  rw [List.countP_set hi, ht] at *
+  omega
+
+theorem mem_set_cases {l : List Th} {i : Nat} {t' x : Th} (h : x ∈ l.set i t') : x = t' ∨ x ∈ l := by
+  rcases List.mem_or_eq_of_mem_set h with h | h
+  · exact .inr h
+  · exact .inl h
+
+/-- bookkeeping of `count (tok, m)` in `handed ++ [(tok0, m0)]` -/
+theorem count_snoc (l : List (Nat × Nat)) (tok0 m0 tk mm : Nat) :
+    (l ++ [(tok0, m0)]).count (tk, mm) = l.count (tk, mm) + (if tok0 = tk ∧ m0 = mm then 1 else 0) := by
+  by_cases e : tok0 = tk ∧ m0 = mm
+  · obtain ⟨e1, e2⟩ := e; subst e1; subst e2; simp [List.count_append]
+  · have : ¬ ((tk, mm) = (tok0, m0)) := by
+      intro h; apply e; cases h; exact ⟨rfl, rfl⟩
+    simp [List.count_append, List.count_singleton, e, this]
+
+/-- bookkeeping of `carries tk mm` when thread `⟨tok0, m0, a⟩` moves to pc `b` -/
+theorem carries_move {l : List Th} {i tok0 m0 : Nat} {a : Pc} (h : l[i]? = some ⟨tok0, m0, a⟩) (b : Pc)
+    (tk mm : Nat) :
+    (l.set i ⟨tok0, m0, b⟩).countP (carries tk mm) + (if tok0 = tk ∧ m0 = mm ∧ a ≠ .fin then 1 else 0)
+      = l.countP (carries tk mm) + (if tok0 = tk ∧ m0 = mm ∧ b ≠ .fin then 1 else 0) := by
+  have := countP_set' (p := carries tk mm) (t' := ⟨tok0, m0, b⟩) h
+  simpa [carries, and_assoc] using this
+
+theorem inv_step (s s' : St) (a : Act) (hI : Inv s) (hs : step s a = some s') : Inv s' := by
+  obtain ⟨hn, hic, hci, hmc, hcm, hcc, hhi, hc⟩ := hI
+  cases a with
+  | arrive tok m =>
+    simp [step] at hs; subst hs
+    refine ⟨hn, hic, hci, hmc, ?_, ?_, hhi, ?_⟩
+    · intro t ht hp
+      simp at ht
+      rcases ht with ht | ht
+      · exact hcm t ht hp
+      · subst ht; simp at hp
+    · simpa [List.countP_append, atCtor] using hcc
+    · intro tk mm
+      have h1 := hc tk mm
+      have h2 := count_snoc s.arrived tok m tk mm
+      show (s.arrived ++ [(tok, m)]).count (tk, mm) = s.handed.count (tk, mm) + (s.thr ++ [(⟨tok, m, .wait⟩ : Th)]).countP (carries tk mm)
+      rw [h2, List.countP_append]
+      by_cases e : tok = tk ∧ m = mm
+      · obtain ⟨e1, e2⟩ := e; subst e1; subst e2; simp [carries]; omega
+      · have : carries tk mm ⟨tok, m, .wait⟩ = false := by
+          simp only [carries]
+          by_cases e1 : tok = tk
+          · have : m ≠ mm := fun h => e ⟨e1, h⟩
+            simp [e1, this]
+          · simp [e1]
+        simp [e, this]; omega
+  | thread i =>
+    simp only [step] at hs
+    split at hs
+    · rename_i t ht
+      obtain ⟨tok0, m0, pc0⟩ := t
+      cases pc0 with
+      | fin => simp [stepTh] at hs
+      | wait =>
+        simp only [stepTh] at hs
+        split at hs
+        · simp at hs
+        · rename_i hmux
+          have hmux' : s.mux = none := by
+            cases hm : s.mux <;> simp [hm] at hmux ⊢
+          split at hs
+          · -- the instance exists: hand the message over
+            rename_i hin
+            simp at hs; subst hs
+            have hk := countP_set' (p := atCtor) (t' := ⟨tok0, m0, .fin⟩) ht
+            refine ⟨hn, hic, hci, hmc, ?_, ?_, ?_, ?_⟩
+            · intro t ht' hp
+              rcases mem_set_cases ht' with e | h
+              · subst e; simp at hp
+              · exact hcm t h hp
+            · simp [atCtor] at hk; simpa [hk] using hcc
+            · intro p hp
+              simp at hp
+              rcases hp with hp | hp
+              · exact hhi p hp
+              · subst hp; exact hin
+            · intro tk mm
+              have h1 := hc tk mm
+              have h2 := carries_move ht .fin tk mm
+              have h3 := count_snoc s.handed tok0 m0 tk mm
+              show s.arrived.count (tk, mm) = (s.handed ++ [(tok0, m0)]).count (tk, mm) + (s.thr.set i ⟨tok0, m0, .fin⟩).countP (carries tk mm)
+              rw [h3]
+              have hb : ¬ (tok0 = tk ∧ m0 = mm ∧ Pc.fin ≠ Pc.fin) := fun h => h.2.2 rfl
+              rw [if_neg hb] at h2
+              by_cases e : tok0 = tk ∧ m0 = mm
+              · have ha : tok0 = tk ∧ m0 = mm ∧ Pc.wait ≠ Pc.fin := ⟨e.1, e.2, by decide⟩
+                rw [if_pos ha] at h2; rw [if_pos e]; omega
+              · have ha : ¬ (tok0 = tk ∧ m0 = mm ∧ Pc.wait ≠ Pc.fin) := fun h => e ⟨h.1, h.2.1⟩
+                rw [if_neg ha] at h2; rw [if_neg e]; omega
+          · -- no instance: list one and run the constructor with the lock held
+            rename_i hnin
+            simp at hs; subst hs
+            have hnc : tok0 ∉ s.created := by
+              intro h
+              rcases hci tok0 h with h' | h'
+              · exact hnin h'
+              · rw [hmux'] at h'; simp at h'
+            have hk := countP_set' (p := atCtor) (t' := ⟨tok0, m0, .ctor⟩) ht
+            refine ⟨?_, ?_, ?_, ?_, ?_, ?_, hhi, ?_⟩
+            · refine List.nodup_append.mpr ⟨hn, by simp, ?_⟩
+              intro a ha b hb; simp at hb; subst hb; intro e; subst e; exact hnc ha
+            · intro tk h; simp; left; exact hic tk h
+            · intro tk h
+              simp at h
+              rcases h with h | h
+              · rcases hci tk h with h' | h'
+                · left; exact h'
+                · rw [hmux'] at h'; simp at h'
+              · subst h; right; rfl
+            · intro tk h; simp at h; subst h; exact ⟨by simp, hnin⟩
+            · intro t ht' hp
+              rcases mem_set_cases ht' with e | h
+              · subst e; rfl
+              · have := hcm t h hp; rw [hmux'] at this; simp at this
+            · have h0 : s.thr.countP atCtor = 0 := by rw [hmux'] at hcc; exact hcc
+              simp [atCtor] at hk
+              show (s.thr.set i ⟨tok0, m0, .ctor⟩).countP atCtor = 1
+              rw [hk, h0]
+            · intro tk mm
+              have h1 := hc tk mm
+              have h2 := carries_move ht .ctor tk mm
+              show s.arrived.count (tk, mm) = s.handed.count (tk, mm) + (s.thr.set i ⟨tok0, m0, .ctor⟩).countP (carries tk mm)
+              by_cases e : tok0 = tk ∧ m0 = mm
+              · have ha : tok0 = tk ∧ m0 = mm ∧ Pc.wait ≠ Pc.fin := ⟨e.1, e.2, by decide⟩
+                have hb : tok0 = tk ∧ m0 = mm ∧ Pc.ctor ≠ Pc.fin := ⟨e.1, e.2, by decide⟩
+                rw [if_pos ha, if_pos hb] at h2; omega
+              · have ha : ¬ (tok0 = tk ∧ m0 = mm ∧ Pc.wait ≠ Pc.fin) := fun h => e ⟨h.1, h.2.1⟩
+                have hb : ¬ (tok0 = tk ∧ m0 = mm ∧ Pc.ctor ≠ Pc.fin) := fun h => e ⟨h.1, h.2.1⟩
+                rw [if_neg ha, if_neg hb] at h2; omega
+      | ctor =>
+        simp only [stepTh] at hs
+        simp at hs; subst hs
+        have hm : s.mux = some tok0 := hcm ⟨tok0, m0, .ctor⟩ (List.mem_of_getElem? ht) rfl
+        have ⟨hcr, hni⟩ := hmc tok0 hm
+        have hk := countP_set' (p := atCtor) (t' := ⟨tok0, m0, .fin⟩) ht
+        have hzero : (s.thr.set i ⟨tok0, m0, .fin⟩).countP atCtor = 0 := by
+          rw [hm] at hcc; simp [atCtor] at hk hcc; omega
+        refine ⟨hn, ?_, ?_, ?_, ?_, ?_, ?_, ?_⟩
+        · intro tk h
+          simp at h
+          rcases h with h | h
+          · exact hic tk h
+          · subst h; exact hcr
+        · intro tk h
+          rcases hci tk h with h' | h'
+          · left; simp [h']
+          · rw [hm] at h'; simp at h'; subst h'; left; simp
+        · intro tk h; simp at h
+        · intro t ht' hp
+          exfalso
+          have : 0 < (s.thr.set i ⟨tok0, m0, .fin⟩).countP atCtor :=
+            List.countP_pos_iff.mpr ⟨t, ht', by simp [atCtor, hp]⟩
+          omega
+        · simp [hzero]
+        · intro p hp
+          simp at hp
+          rcases hp with hp | hp
+          · simp; left; exact hhi p hp
+          · subst hp; simp
+        · intro tk mm
+          have h1 := hc tk mm
+          have h2 := carries_move ht .fin tk mm
+          have h3 := count_snoc s.handed tok0 m0 tk mm
+          show s.arrived.count (tk, mm) = (s.handed ++ [(tok0, m0)]).count (tk, mm) + (s.thr.set i ⟨tok0, m0, .fin⟩).countP (carries tk mm)
+          rw [h3]
+          have hb : ¬ (tok0 = tk ∧ m0 = mm ∧ Pc.fin ≠ Pc.fin) := fun h => h.2.2 rfl
+          rw [if_neg hb] at h2
+          by_cases e : tok0 = tk ∧ m0 = mm
+          · have ha : tok0 = tk ∧ m0 = mm ∧ Pc.ctor ≠ Pc.fin := ⟨e.1, e.2, by decide⟩
+            rw [if_pos ha] at h2; rw [if_pos e]; omega
+          · have ha : ¬ (tok0 = tk ∧ m0 = mm ∧ Pc.ctor ≠ Pc.fin) := fun h => e ⟨h.1, h.2.1⟩
+            rw [if_neg ha] at h2; rw [if_neg e]; omega
+    · simp at hs
+
+theorem inv_run (as : List Act) (s : St) (h : Inv s) : Inv (run s as) := by
+  induction as generalizing s with
+  | nil => exact h
+  | cons a as ih =>
+    simp only [run]
+    split
+    · exact ih _ (inv_step _ _ _ h ‹_›)
+    · exact ih _ h
+
+/-- **one instance per run and node**: under every schedule of arrivals — any number of messages
+for the same not-yet-existing instance, from any number of peers, however long the constructor
+takes — the protocol constructor is called at most once per token. -/
+theorem c01_one_instance_per_token (as : List Act) : (run {} as).created.Nodup :=
+  (inv_run as {} inv_init).nodup
+
+/-- **to that instance and no other**: every hand-over goes to the registered instance of the
+message's own token (which, by the previous theorem, is unique). -/
+theorem c01_handed_to_its_instance (as : List Act) :
+    ∀ p ∈ (run {} as).handed, p.1 ∈ (run {} as).inst ∧ p.1 ∈ (run {} as).created := by
+  intro p hp
+  have hI := inv_run as {} inv_init
+  exact ⟨hI.handedInst p hp, hI.instCreated _ (hI.handedInst p hp)⟩
+
+/-- the region is a critical section: at most one thread is inside it -/
+theorem c01_region_mutex (as : List Act) : (run {} as).thr.countP atCtor ≤ 1 := by
+  have := (inv_run as {} inv_init).ctorCount
+  split at this <;> omega
+
+/-- **exactly once through the region**: once every arrival thread has finished, each message was
+handed over exactly as often as it arrived. -/
+theorem c01_region_exactly_once (as : List Act) (hq : ∀ t ∈ (run {} as).thr, t.pc = .fin) :
+    ∀ tok m, (run {} as).handed.count (tok, m) = (run {} as).arrived.count (tok, m) := by
+  intro tok m
+  have hI := inv_run as {} inv_init
+  have h0 : (run {} as).thr.countP (carries tok m) = 0 := by
+    rw [List.countP_eq_zero]
+    intro t ht
+    simp [carries, hq t ht]
+  have := hI.cons tok m
+  omega
+
+/-- non-vacuity: two peers race to create instance 7 while instance 9's constructor runs -/
+example : (run {} [.arrive 9 1, .thread 0, .arrive 7 2, .arrive 7 3, .thread 1, .thread 2, .thread 0,
+      .thread 1, .thread 2, .thread 1, .thread 2]).created = [9, 7] ∧
+    (run {} [.arrive 9 1, .thread 0, .arrive 7 2, .arrive 7 3, .thread 1, .thread 2, .thread 0,
+      .thread 1, .thread 2, .thread 1, .thread 2]).handed = [(9, 1), (7, 2), (7, 3)] := by decide
+
+end Inst
+
 /-! ### the code regions the model stands for
 Regenerated from /repo's source on every run (`harness/cmd/astfacts` → `OnetVerif/Shapes.lean`): the
 calls that matter for synchronisation and data flow, the lock regions and (for decision logic) the
